@@ -49,6 +49,8 @@ def run(chk):
     chk.floor = 55
     decls = cfront.load_tu("htmc")
     fs = cfront.functions(decls)
+    HELPERS.clear()
+    HELPERS.update({k: v for k, v in fs.items() if "::" not in k})
     for nm in ("Matcher::match", "Matcher::init_hmap", "Matcher::Matcher", "gcirc", "PAIR_INFO_ORDERING::operator()"):
         if nm not in fs:
             raise AnalysisError("C++ anchor %s not found in htmc.cc" % nm)
@@ -81,8 +83,34 @@ def ref_desc(n):
     return (None, render(n))
 
 
+HELPERS = {}      # functions of the translation unit (set by run): lets array_read see through small accessor helpers
+
+
 def array_read(expr):
-    """(array descriptor, index text) if expr reads one element of a numpy array through PyArray_GETPTR1"""
+    """(array descriptor, index text) if expr reads one element of a numpy array through PyArray_GETPTR1, directly or through
+    a file-local accessor helper whose body is such a read of (parameter 0)[parameter 1]"""
+    e0 = strip(expr)
+    if e0.get("kind") == "UnaryOperator" and e0.get("opcode") == "*":
+        e1 = strip(e0["inner"][0])
+    else:
+        e1 = e0
+    if e1.get("kind") == "CallExpr" and callee_name(e1) in HELPERS and callee_name(e1) not in ("PyArray_BYTES", "PyArray_STRIDES"):
+        h = HELPERS[callee_name(e1)]
+        hp = cfront.params_of(h)
+        args = cfront.call_args(e1)
+        if len(hp) >= 2 and len(args) >= 2:
+            inner = None
+            for x in walk(cfront.body_of(h)):
+                if x.get("kind") in ("ReturnStmt", "VarDecl"):
+                    r_ = _array_read_direct(x)
+                    if r_ is not None:
+                        inner = r_
+            if inner is not None and inner[0] == ("param", hp[0]) and inner[1] == hp[1]:
+                return ref_desc(args[0]), render(args[1])
+    return _array_read_direct(expr)
+
+
+def _array_read_direct(expr):
     arr = idx = None
     for x in walk(expr):
         if x.get("kind") == "CallExpr" and callee_name(x) == "PyArray_BYTES":
@@ -563,6 +591,11 @@ def hmap_rule(chk, fs):
                 arms[lab] = (arg, recv)
     stores = [render(n.c) for n in g.nodes if isinstance(n.c, dict) and "hmap[" in render(n.c)]
     ok = set(arms) == {"T", "F"} and all(a == ivar for a, _ in arms.values()) and look is not None and any("hmap[%s]" % look[1] in s for s in stores)
+    if not ok and look is not None and not arms:
+        # one unconditional append through operator[] (which creates the empty list the first time a triangle is seen)
+        direct = [(n, a, r) for n, a, r in pushes if r.replace(" ", "").startswith("hmap[%s]" % look[1]) and a == ivar and not [b for b, lab in view.controlling_branches(n) if b.kind == "branch"]]
+        ok = len(direct) == 1 and len(pushes) == 1
+        arms = {"unconditional": direct[0][1:]} if ok else arms
     chk.ob("R12.3", "init_hmap::index-pushed-in-both-arms", bool(ok), where,
            "the member index is appended exactly once, whether its triangle is new (new list stored under the id) or already present (%s)" % arms)
 
